@@ -201,6 +201,7 @@ per_ctor! {
     c26_q_infer, 22;
 }
 vharness!(c26_q_dyn_implemented, 8, { dyn_bound(0) });
-vharness!(c26_t_dyn_alias_eq, 8, { dyn_bound(1) });
+// `dyn_bound(1)` (an AliasEq bound) is withdrawn: WhereClause::AliasEq is the widest where-clause variant
+// and CBMC cannot read it back (DESIGN.md §2.2a, B12): 693 s, then a trace that does not reproduce natively.
 vharness!(c26_q_dyn_lifetime_outlives, 8, { dyn_bound(2) });
 vharness!(c26_q_dyn_type_outlives, 8, { dyn_bound(3) });
